@@ -748,6 +748,32 @@ func R23() Rule {
 			return
 		}
 		n := nilness(P)
+		// the pre-patch object: the GetMeta result itself, or a load of a variable / struct field
+		// (`op.obj`) that only ever holds results of Store.GetMeta read in this handler
+		isOld := func(v ssa.Value) bool {
+			if n.resolveAt(v) == old {
+				return true
+			}
+			loc := loadedLocation(v)
+			if loc == "" || !strings.HasPrefix(loc, "field:") {
+				return false
+			}
+			sts := storesToLocation(P, core.PkgGcsemu, loc)
+			if len(sts) == 0 {
+				return false
+			}
+			for _, st := range sts {
+				ex, ok := core.Resolve(st.Val).(*ssa.Extract)
+				if !ok || ex.Index != 0 {
+					return false
+				}
+				call, ok := ex.Tuple.(*ssa.Call)
+				if !ok || !isStoreCall(core.Call(call), "GetMeta") {
+					return false
+				}
+			}
+			return true
+		}
 		isOldField := func(v ssa.Value, field string) bool {
 			ld, ok := core.Strip(v).(*ssa.UnOp)
 			if !ok {
@@ -758,7 +784,7 @@ func R23() Rule {
 				return false
 			}
 			_, f, _ := core.FieldName(fa)
-			return f == field && n.resolveAt(fa.X) == old
+			return f == field && isOld(fa.X)
 		}
 		// metageneration argument = old.Metageneration + 1
 		mg := core.Resolve(upd.Call.Args[len(upd.Call.Args)-1])
@@ -814,9 +840,95 @@ func R23() Rule {
 					}
 				}
 			}
+			if !ok {
+				ok = restoredInHelper(P, n, patched, isOld, field)
+			}
 			c.Check(ok, "R23", "patch/restores-"+field, upd.Pos(), field+" of the patched object is re-assigned from the pre-patch object after the body was decoded", "a patch body that carries "+field+" overwrites it: the stored "+field+" no longer describes the content")
 		}
 	}}
+}
+
+// restoredInHelper: the patched object is the result of an in-package helper that, after decoding
+// the body, re-assigns `field` of the object it returns from the same field of a parameter the
+// caller binds to the pre-patch object (`patched, err := patchedCopyOf(obj, r.Body)`).
+func restoredInHelper(P *core.Program, n *nilAnalysis, patched ssa.Value, isOld func(ssa.Value) bool, field string) bool {
+	pv := n.resolveAt(patched)
+	var call *ssa.Call
+	idx := 0
+	switch x := pv.(type) {
+	case *ssa.Extract:
+		call, _ = x.Tuple.(*ssa.Call)
+		idx = x.Index
+	case *ssa.Call:
+		call = x
+	}
+	if call == nil {
+		return false
+	}
+	g := call.Call.StaticCallee()
+	if g == nil || g.Blocks == nil || core.PkgPathOf(g) != core.PkgGcsemu {
+		return false
+	}
+	oldParam := -1
+	for i, a := range call.Call.Args {
+		if i < len(g.Params) && isOld(a) {
+			oldParam = i
+		}
+	}
+	if oldParam < 0 {
+		return false
+	}
+	var dec ssa.Instruction
+	for _, ci := range core.AllCalls(g) {
+		if ci.Static != nil && ci.Static.Pkg != nil && ci.Static.Pkg.Pkg.Path() == "encoding/json" && ci.Static.Name() == "Decode" {
+			dec = ci.Instr
+		}
+	}
+	if dec == nil {
+		return false
+	}
+	for _, b := range g.Blocks {
+		for _, in := range b.Instrs {
+			st, ok := in.(*ssa.Store)
+			if !ok || !core.InstrReaches(dec, st) {
+				continue
+			}
+			fa, ok := st.Addr.(*ssa.FieldAddr)
+			if !ok {
+				continue
+			}
+			if _, f, _ := core.FieldName(fa); f != field {
+				continue
+			}
+			// the value: the same field of the parameter bound to the pre-patch object
+			ld, ok := core.Strip(st.Val).(*ssa.UnOp)
+			if !ok {
+				continue
+			}
+			vfa, ok := ld.X.(*ssa.FieldAddr)
+			if !ok {
+				continue
+			}
+			if _, f, _ := core.FieldName(vfa); f != field || n.resolveAt(vfa.X) != ssa.Value(g.Params[oldParam]) {
+				continue
+			}
+			// the target: what the helper returns on success, and the store precedes every such return
+			okAll, any := true, false
+			for _, r := range returnsIn(g) {
+				if idx >= len(r.Results) || core.IsNilConst(r.Results[idx]) {
+					continue
+				}
+				any = true
+				if !(n.same(fa.X, r.Results[idx]) || n.resolveAt(fa.X) == n.resolveAt(r.Results[idx])) || !core.InstrDominates(st, r) {
+					okAll = false
+				}
+			}
+			if any && okAll {
+				return true
+			}
+		}
+	}
+	return false
 }
 
 // ---------------------------------------------------------------------------
